@@ -221,6 +221,7 @@ type history struct {
 	overwritten bool
 	dec         *json.Decoder
 	sameVal     any
+	earlier     []byte // the input of an earlier zero-copy call on an equal document (nothing of the later result may live there)
 }
 
 var posts = []post{
@@ -230,6 +231,15 @@ var posts = []post{
 		}
 		h.want = bytes.Repeat([]byte{0xAA}, len(h.in))
 		h.overwritten = true
+	}},
+	{"overwrite-earlier-input", func(h *history) {
+		for i := range h.earlier {
+			h.earlier[i] = 0xBB
+		}
+	}},
+	{"Marshal(failing map)", func(h *history) {
+		json.Marshal(map[string]any{"b": 1, "a": make(chan int), "c": map[string]any{"d": 2}})
+		json.Marshal(map[string]any{"z": map[string]any{"y": 1, "x": 2}, "w": 3})
 	}},
 	{"Marshal(other)", func(h *history) { json.Marshal(otherVal) }},
 	{"Marshal(same)", func(h *history) {
@@ -329,6 +339,9 @@ func checkResult(c *explore.Ctx, site string, h *history, res any, flags json.Pa
 	aliased := map[string]bool{}
 	var fragileKeys []string // prefixes of paths below a map key that legitimately aliases the input
 	for _, l := range snap {
+		if inside(l, h.earlier) {
+			c.Fail("aliases-an-earlier-input:"+site+":"+l.class, "%s with flags %b: the %s at %s (%q) points into the input buffer of an EARLIER zero-copy call on an equal document", site, flags, l.class, l.path, l.val)
+		}
 		if inside(l, h.in) {
 			aliased[l.path] = true
 			if !allowedAlias(l.class, flags) {
@@ -390,9 +403,19 @@ func parseFamily(c *explore.Ctx) {
 	fi := c.Choose(len(flagSets) + 1) // last = Unmarshal
 	useNumber := c.Bool()
 	seq := choosePosts(c, false)
+	// an earlier call on an equal document in another buffer: none / Parse with ZeroCopy / with DontCopyString
+	// (before a copying call only: what a zero-copy call may share is not specified further)
+	pre := 0
+	if fi == 0 || fi == len(flagSets) {
+		pre = c.Choose(3)
+	}
 	hook.ResetAll()
 	doc := tk.doc(upper, class)
 	h := &history{in: []byte(doc), want: []byte(doc)}
+	if pre > 0 {
+		h.earlier = []byte(doc)
+		json.Parse(h.earlier, tk.mk(), []json.ParseFlags{json.ZeroCopy, json.DontCopyString}[pre-1])
+	}
 	res := tk.mk()
 	var flags json.ParseFlags
 	site := "Unmarshal"
@@ -448,7 +471,7 @@ func (r *chunkReader) Read(p []byte) (int, error) {
 func decoderFamily(c *explore.Ctx) {
 	tk := targetKinds[c.Choose(len(targetKinds))]
 	class := c.Choose(4)
-	layout := c.Choose(4) // how the stream is cut relative to the values
+	layout := c.Choose(7) // how the stream is cut relative to the values / what kind of reader delivers it
 	useNumber := c.Bool()
 	seq := choosePosts(c, false)
 	hook.ResetAll()
@@ -471,10 +494,26 @@ func decoderFamily(c *explore.Ctx) {
 		stream = doc + filler + doc + big
 		chunks = []int{1 << 20}
 	}
+	h := &history{}
+	if layout >= 4 {
+		// readers of the standard library over the caller's own bytes: *bytes.Buffer, *bytes.Reader, and a Buffer
+		// holding a stream that ends inside a value (the unconsumed tail is moved around by the Decoder)
+		stream = doc + "\n" + filler + "\n" + doc + "\n1234567"
+		if layout == 6 {
+			stream = doc + "\n" + filler + "\n" + doc[:len(doc)/2]
+		}
+	}
 	sdata := []byte(stream)
 	var rd io.Reader = &chunkReader{data: sdata, chunks: chunks}
-	if layout == 2 {
+	switch layout {
+	case 2:
 		rd = iotestOneByte{&chunkReader{data: sdata, chunks: []int{1 << 20}}}
+	case 4, 6:
+		rd = bytes.NewBuffer(sdata)
+		h.in, h.want = sdata, append([]byte{}, sdata...)
+	case 5:
+		rd = bytes.NewReader(sdata)
+		h.in, h.want = sdata, append([]byte{}, sdata...)
 	}
 	dec := json.NewDecoder(rd)
 	if useNumber {
@@ -485,9 +524,9 @@ func decoderFamily(c *explore.Ctx) {
 		c.Fail("decode-error:decoder:"+tk.name, "Decoder.Decode fails on %q: %v", doc, err)
 		return
 	}
-	h := &history{dec: dec}
+	h.dec = dec
 	// always decode the following values first, then the chosen posts
-	full := append([]post{posts[5], posts[5]}, seq...)
+	full := append([]post{posts[7], posts[7]}, seq...)
 	checkResult(c, "Decoder.Decode:"+tk.name, h, res, 0, full)
 	c.NontrivialStr("decoder", tk.name, doc, fmt.Sprint(layout, useNumber))
 	c.Outcome(fmt.Sprintf("target=%s layout=%d", tk.name, layout))
@@ -798,6 +837,17 @@ var lentValues = []struct {
 	}},
 }
 
+var lentPosts = []string{"Marshal(other)", "Marshal(failing map)", "Encoder.Encode(other)", "Unmarshal(other)", "GC"}
+
+func postByName(name string) post {
+	for _, p := range posts {
+		if p.name == name {
+			return p
+		}
+	}
+	panic("no post " + name)
+}
+
 func lentFamily(c *explore.Ctx) {
 	lv := lentValues[c.Choose(len(lentValues))]
 	op := c.Choose(4) // Marshal, Append, Encoder, Encoder with a re-entrant writer
@@ -806,7 +856,14 @@ func lentFamily(c *explore.Ctx) {
 	if op == 1 {
 		dstKind = c.Choose(3)
 	}
-	seq := choosePostsN(c, true, 2)
+	var seq []post // up to two later calls from the encoding half of the menu
+	for len(seq) < 2 {
+		k := c.Choose(len(lentPosts) + 1)
+		if k == 0 {
+			break
+		}
+		seq = append(seq, postByName(lentPosts[k-1]))
+	}
 	// the caller overwrites what it lent before post number i (len+1: never); quick tier: at once, or never
 	overwriteAt := 0
 	if c.Thorough() {
@@ -943,8 +1000,8 @@ func Spec() *explore.Spec {
 	return &explore.Spec{
 		ID: "C10",
 		Families: []*explore.Family{
-			{Name: "parse", ShardDepth: 3, Body: parseFamily, Doc: "Parse/Unmarshal of 14 target kinds (incl. maps that already hold members of the document, and documents naming a member twice) x documents (4 string classes, exact / upper-case keys incl. 63/64/65-byte keys) x all 8 subsets of the DontCopy flags (+Unmarshal) x UseNumber x every sequence of <= 2 (thorough 3) later calls from a menu of 8 (overwrite the input, Marshal, Encoder, Unmarshal, Parse with ',string' fields, Decoder, Tokenizer on other data)"},
-			{Name: "decoder", ShardDepth: 3, Body: decoderFamily, Doc: "Decoder.Decode of the first value of a stream delivered so that the tail is compacted over it / the buffer is reallocated / bytes arrive one at a time / all at once, followed by the next two Decode calls and every sequence of later calls"},
+			{Name: "parse", ShardDepth: 3, Body: parseFamily, Doc: "Parse/Unmarshal of 14 target kinds (incl. maps that already hold members of the document, and documents naming a member twice) x documents (4 string classes, exact / upper-case keys incl. 63/64/65-byte keys) x all 8 subsets of the DontCopy flags (+Unmarshal) x UseNumber x every sequence of <= 2 (thorough 3) later calls from a menu of 10 (overwrite the input, overwrite the input of an earlier zero-copy Parse of an equal document, a failing Marshal of a map followed by a nested one, Marshal, Encoder, Unmarshal, Parse with ',string' fields, Decoder, Tokenizer on other data)"},
+			{Name: "decoder", ShardDepth: 3, Body: decoderFamily, Doc: "Decoder.Decode of the first value of a stream delivered so that the tail is compacted over it / the buffer is reallocated / bytes arrive one at a time / all at once / from a *bytes.Buffer or *bytes.Reader over the caller's own bytes (which must stay as they are, also when the stream ends inside a value), followed by the next two Decode calls and every sequence of later calls"},
 			{Name: "tokenizer", ShardDepth: 2, Body: tokenizerFamily, Doc: "Tokenizer.String results (slices of the input, or fresh slices for escaped strings) x every sequence of later calls"},
 			{Name: "encode", ShardDepth: 2, Body: encodeFamily, Doc: "Marshal / Encoder.Encode (plain writer; writer that calls the library before consuming its argument, with and without SetIndent) / Append / MarshalIndent of 12 value kinds (incl. outputs larger than a fresh pooled buffer and sorted map[string]RawMessage), with and without a used buffer in the pool, x every sequence of <= 2 (3) later calls incl. GC; Marshal repeated at the end gives the same bytes"},
 			{Name: "lent-values", ShardDepth: 3, Body: lentFamily, Doc: "memory lent to the encoder: 13 values holding RawMessages / byte slices / Marshalers and TextMarshalers that return memory they keep (small, larger than a fresh pooled buffer, larger than a grown one; top-level, behind a pointer, in structs, maps and []any), each with spare capacity behind it x {Marshal, Append x 8 flag subsets x 3 destinations, Encoder x 8 setter combinations x {plain, re-entrant writer}} x every sequence of <= 2 later calls x the moment at which the caller overwrites what it lent (quick: at once or never; thorough: before any of the later calls, or never): neither the contents nor the spare capacity of a lent value is ever written, and the result does not change when the caller overwrites it"},
